@@ -116,8 +116,12 @@ def _run(ctx):
                        "earlier in the same function (no check-then-act across critical sections)", floor=2)
     rep.rule("LOCK-5", "each PtpInstanceStateMutex impl acquires exactly once per call and drops the guard on "
                        "every path", floor=4)
+    rep.rule("LOCK-7", "an update of the data sets is all-or-nothing: inside a function that writes them under the lock, "
+                       "no exit is reachable between two of its data-set writes (an early return after the first write "
+                       "leaves a half-applied update for every later reader)", floor=2)
     for cfgname, p in progs:
         check_prog(ctx, rep, cfgname, p)
+    check_all_or_nothing(rep, prog)
 
 
 def check_prog(ctx, rep, cfgname, prog):
@@ -445,3 +449,109 @@ def check_prog(ctx, rep, cfgname, prog):
         else:
             rep.ok("LOCK-5", b.key + tag, construct, detail={"acquire": acq[0][1], "guard_local": guard_local},
                    where=b.loc())
+
+
+def check_all_or_nothing(rep, prog):
+    """LOCK-7: for data-set stores A, B of one function with B reachable from A, every path from A to the exit passes B
+    (stores that are conditional on each other's region - a store in one match arm, another in a different arm - are not
+    related: B must be reachable from A)."""
+    for b in prog.bodies.values():
+        if b.unit.name != "statime-lib" or b.is_test():
+            continue
+        hits = writes_ds(b)
+        if len(hits) < 2:
+            continue
+        g = mir.cfg(b)
+        blocks = sorted({bi for bi, _ in hits})
+        line_of = {}
+        for bi, ln in hits:
+            line_of.setdefault(bi, ln)
+        bad = None
+        for a in blocks:
+            reach_a = g.reachable_from(a)
+            for t_ in blocks:
+                if t_ == a or t_ not in reach_a:
+                    continue
+                # can the exit be reached from a without passing t_?
+                seen, st = {a}, [a]
+                escaped = False
+                while st and not escaped:
+                    x = st.pop()
+                    for y in g.succ[x]:
+                        if y == t_ or y in seen:
+                            continue
+                        if y == g.EXIT:
+                            escaped = True
+                            break
+                        seen.add(y)
+                        st.append(y)
+                if escaped and _exit_between(b, g, a, t_):
+                    bad = (a, t_)
+                    break
+            if bad:
+                break
+        construct = "data-set writes are all-or-nothing"
+        if bad:
+            rep.violation("LOCK-7", b.key, construct,
+                          "after the data-set write at line %d the function can return without performing the write at line "
+                          "%d (an error path or early return between them): readers then see a half-applied update" % (
+                              line_of[bad[0]], line_of[bad[1]]), where="%s:%d" % (b.file, line_of[bad[0]]))
+        else:
+            rep.ok("LOCK-7", b.key, construct, detail={"write blocks": len(blocks)}, where=b.loc())
+
+
+def _exit_between(b, g, a, t_):
+    """is there a block x, reachable from a and from which t_ is reachable, with a successor edge that leads to the
+    exit without t_? (the return sits on the way from a to t_)"""
+    reach_a = g.reachable_from(a) | {a}
+    for x in reach_a:
+        if x == g.EXIT or x == t_:
+            continue
+        if t_ not in g.reachable_from(x):
+            continue
+        for y in g.succ[x]:
+            if y == t_:
+                continue
+            if y == g.EXIT or (t_ not in g.reachable_from(y) and g.EXIT in (g.reachable_from(y) | {y})):
+                # x can still reach t_, but this edge gives it up. An edge that merely selects another arm of a match
+                # on a value that was known before the first write (the decision code, a parameter) is not an early
+                # return; one that is decided by something computed AFTER the first write (the result of a call made
+                # in between - an error path) is.
+                if _decided_after(b, g, x, a):
+                    return True
+    return False
+
+
+def _decided_after(b, g, x, a):
+    t = b.blocks[x]["term"]
+    if t["k"] != "switch":
+        return t["k"] in ("call", "assert", "drop") and False
+    d = df.defs(b)
+    after = g.reachable_from(a) | {a}
+    start = mir.op_place(t["discr"])
+    if start is None:
+        return False
+    seen, work = set(), [start["l"]]
+    while work:
+        l = work.pop()
+        if l in seen:
+            continue
+        seen.add(l)
+        for (bi, si, dd) in d.whole.get(l, []):
+            if dd[0] != "assign":
+                # defined by a call: where was it made?
+                if bi in after:
+                    return True
+                continue
+            r = dd[1]
+            for key in ("op", "a", "b", "p"):
+                o = r.get(key)
+                if isinstance(o, dict):
+                    pl = o.get("p") if o.get("k") in ("copy", "move") else (o if "l" in o and "proj" in o else None)
+                    if pl is not None:
+                        work.append(pl["l"])
+            for o in r.get("ops", []) or []:
+                pl = o.get("p") if isinstance(o, dict) and o.get("k") in ("copy", "move") else None
+                if pl is not None:
+                    work.append(pl["l"])
+    return False
